@@ -1,11 +1,29 @@
 import Hertz.Proofs.Args
+import Hertz.Proofs.UriRt
+import Hertz.Proofs.CookieRt
+import Hertz.Driver.C17u
 /-!
 # C17 — URI, query-string and cookie codecs round-trip
 
 URI and cookie round trips (`Model/Uri.lean`: `parse`, `fullURI`, `parseCookie`, `appendCookie`) are compared with the real
-code and the round-trip statement is evaluated on the implementation's output for every explored case (TODO-OPEN as Lean
-theorems: `uri_roundtrip`, `cookie_roundtrip`).  Known finding F15: a control byte in the fragment is written raw by `FullURI`
-and `Parse` then rejects the whole URI.
+code, the round-trip statement is evaluated on the implementation's output for every explored case, and they are now Lean
+theorems for all inputs:
+
+* `uri_roundtrip` (+ `uri_roundtrip_components`, `uri_fixed_point`, `uri_roundtrip_rawQuery`): for every scheme/host accepted
+  by the driver's `wfUri` (`wfUri_is_the_drivers`), every path, every list of query arguments (or raw query string free of `#`
+  and control bytes) and every fragment free of control bytes, `Parse(nil, FullURI())` returns exactly the components that
+  were assembled and formatting again is a fixed point.  `uri_roundtrip_fails_at`: with a control byte in the fragment the
+  statement is false (known finding F15), so that hypothesis cannot be dropped; `uri_fragment_ctl_loses_everything`: for
+  every URI whose fragment has a control byte the re-parsed URI is the empty one.
+* `cookie_roundtrip_partial`: for every cookie satisfying the driver's validity predicate (`Uri.wfCookie`, plus max-age in
+  Go's `int` range) that has a key, a value or at least one attribute, `ParseBytes(AppendBytes(c)) = c` on all nine modelled
+  fields.  `cookie_roundtrip_fails_at`: the entirely empty cookie is written as the empty string, which `ParseBytes` rejects
+  (`errNoCookies`) - the excluded case.
+
+TODO-OPEN (not Lean theorems): `args_agree_std` (agreement with `net/url`, checked per case); cookie `expires` (Go's time
+formatting and parsing, compared on the Go side); URIs with user-info (`username`/`password` are parsed but never written by
+`FullURI`, so they are outside the round trip) and relative parsing with a separate `Host` argument (`parse host uri` with
+`host ≠ []`) are covered by the correspondence check only.
 
 Property theorems only; lemmas live in `Hertz/Proofs`.  Every statement is about the models in
 `Hertz/Model`, which the correspondence check (`bin/check C17`) holds to the Go code, and about
@@ -36,5 +54,129 @@ theorem path_decode_quote (p : Bytes) : decodeArgNoPlus (quotePath p) = p := dec
 /-- non-vacuity: a hostile two-entry list meets the hypothesis and round-trips. -/
 example : parseArgs (appendArgs [⟨[97, 38, 61], [37, 32, 43], false⟩, ⟨[107], [], true⟩])
     = [⟨[97, 38, 61], [37, 32, 43], false⟩, ⟨[107], [], true⟩] := by decide +kernel
+
+/-! ### URI round trip -/
+
+open Hertz.Uri in
+/-- The well-formedness predicate of the theorems below is the one the driver uses to decide whether the round trip is
+demanded of the implementation. -/
+theorem wfUri_is_the_drivers (scheme host : Bytes) : Uri.wfUri scheme host = Driver.C17u.wfUri scheme host := by
+  unfold Uri.wfUri Uri.wfScheme Uri.wfHost Driver.C17u.wfUri
+  rw [Bool.and_assoc]
+  rfl
+
+open Hertz.Uri in
+/-- `uri_roundtrip`: a URI assembled through the setters (`mkURI`: scheme and host lower-cased, path normalised) with query
+arguments `qa`, serialised by `FullURI` and parsed by `Parse(nil, ·)`, gives exactly: the scheme (`http` if none was set),
+the host, the quoted path as `PathOriginal`, the path, the encoded arguments as query string, the fragment, and no user-info.
+For all byte strings; the only hypotheses are the driver's `wfUri` and "no control byte in the fragment" (F15). -/
+theorem uri_roundtrip (scheme host path hash : Bytes) (qa : List ArgKV)
+    (hwf : wfUri scheme host = true) (hh : hasCTL hash = false) :
+    parse [] ((mkURI scheme host path hash).fullURI qa) =
+      { scheme := (mkURI scheme host path hash).schemeOrHTTP, host := host.map toLower,
+        pathOriginal := quotePath (normalizePath path), path := normalizePath path,
+        query := appendArgs qa, hash := hash } :=
+  parse_fullURI scheme host path hash qa hwf hh
+
+open Hertz.Uri in
+/-- The statement in the driver's form (`c1`..`c5` of `urirt`): scheme, host, path, fragment and the re-parsed argument list
+(entries with both key and value empty excepted, as in `args_roundtrip`) are those of the assembled URI. -/
+theorem uri_roundtrip_components (scheme host path hash : Bytes) (qa : List ArgKV)
+    (hwf : wfUri scheme host = true) (hh : hasCTL hash = false)
+    (hqa : ∀ kv ∈ qa, kv.noValue = true → kv.value = []) :
+    let u0 := mkURI scheme host path hash
+    let v := parse [] (u0.fullURI qa)
+    v.schemeOrHTTP = u0.schemeOrHTTP ∧ v.host = u0.host ∧ v.pathOrSlash = u0.pathOrSlash ∧ v.hash = hash ∧
+      v.username = [] ∧ v.password = [] ∧ parseArgs v.query = qa.filter (fun kv => !kv.bothEmpty) :=
+  Uri.uri_roundtrip_components scheme host path hash qa hwf hh hqa
+
+open Hertz.Uri in
+/-- Formatting the re-parsed URI with its re-parsed arguments gives the same text (`c6` of `urirt`; the driver likewise
+exempts lists containing an entry with both key and value empty, which the parser drops). -/
+theorem uri_fixed_point (scheme host path hash : Bytes) (qa : List ArgKV)
+    (hwf : wfUri scheme host = true) (hh : hasCTL hash = false)
+    (hqa : ∀ kv ∈ qa, kv.noValue = true → kv.value = []) (hne : ∀ kv ∈ qa, kv.bothEmpty = false) :
+    let u0 := mkURI scheme host path hash
+    let v := parse [] (u0.fullURI qa)
+    v.fullURI (parseArgs v.query) = u0.fullURI qa :=
+  Uri.uri_fixed_point scheme host path hash qa hwf hh hqa hne
+
+open Hertz.Uri in
+/-- The same round trip when the query is a raw string (`SetQueryString`) instead of an argument list: it must be free of
+`#` (which would start the fragment) and of control bytes. -/
+theorem uri_roundtrip_rawQuery (scheme host path qs hash : Bytes)
+    (hwf : wfUri scheme host = true) (hh : hasCTL hash = false)
+    (hq35 : ∀ x ∈ qs, x ≠ 35) (hqctl : hasCTL qs = false) :
+    parse [] ((mkURIq scheme host path qs hash).fullURI []) =
+      { scheme := (mkURI scheme host path hash).schemeOrHTTP, host := host.map toLower,
+        pathOriginal := quotePath (normalizePath path), path := normalizePath path,
+        query := qs, hash := hash } :=
+  parse_fullURI_rawQuery scheme host path qs hash hwf hh hq35 hqctl
+
+open Hertz.Uri in
+set_option maxRecDepth 100000 in
+/-- Known finding F15: without "no control byte in the fragment" the statement is false.  Host `h`, path `/`, fragment
+`0x01`: `FullURI` writes `http://h/#\x01`, `Parse` rejects the text and every component is lost. -/
+theorem uri_roundtrip_fails_at :
+    wfUri [] [104] = true ∧ (mkURI [] [104] [47] [1]).fullURI [] = [104, 116, 116, 112, 58, 47, 47, 104, 47, 35, 1] ∧
+      parse [] ((mkURI [] [104] [47] [1]).fullURI []) = {} := by decide +kernel
+
+open Hertz.Uri in
+/-- F15 for all inputs: whatever scheme, host, path and query are, a control byte in the fragment makes
+`Parse(nil, FullURI())` return the empty URI (every component lost), so the excluded region of `uri_roundtrip` is exactly
+the known-finding class `uri-fragment-ctl`. -/
+theorem uri_fragment_ctl_loses_everything (u : URI) (qa : List ArgKV) (h : hasCTL u.hash = true) :
+    parse [] (u.fullURI qa) = {} :=
+  parse_fullURI_ctl_fragment u qa h
+
+/-- non-vacuity: the fragment `a\x00` contains a control byte. -/
+example : Uri.hasCTL ({ hash := [97, 0] } : Uri.URI).hash = true := by decide
+
+open Hertz.Uri in
+set_option maxRecDepth 100000 in
+/-- non-vacuity: scheme `HTTPS`, host `H.Example:8080`, path `/a b/../%41?x`, fragment `f#?g`, arguments `a&`=`= ` and `k`=``
+meet the hypotheses of all three theorems, and the text written is the one the real `FullURI` writes for these setters
+(replayed: `urirt 4854545053 482e4578616d706c653a38303830 2f6120622f2e2e2f2534313f78 66233f67 2 6126 3d20 6b -`). -/
+example :
+    wfUri [72, 84, 84, 80, 83] [72, 46, 69, 120, 97, 109, 112, 108, 101, 58, 56, 48, 56, 48] = true ∧
+    hasCTL [102, 35, 63, 103] = false ∧
+    (∀ kv ∈ [(⟨[97, 38], [61, 32], false⟩ : ArgKV), ⟨[107], [], false⟩], (kv.noValue = true → kv.value = []) ∧ kv.bothEmpty = false) ∧
+    (mkURI [72, 84, 84, 80, 83] [72, 46, 69, 120, 97, 109, 112, 108, 101, 58, 56, 48, 56, 48]
+        [47, 97, 32, 98, 47, 46, 46, 47, 37, 52, 49, 63, 120] [102, 35, 63, 103]).fullURI
+        [⟨[97, 38], [61, 32], false⟩, ⟨[107], [], false⟩] =
+      -- https://h.example:8080/A%3Fx?a%26=%3D+&k=#f#?g
+      [104, 116, 116, 112, 115, 58, 47, 47, 104, 46, 101, 120, 97, 109, 112, 108, 101, 58, 56, 48, 56, 48, 47, 65, 37, 51, 70, 120, 63, 97, 37, 50, 54, 61, 37, 51, 68, 43, 38, 107, 61, 35, 102, 35, 63, 103] := by
+  decide +kernel
+
+/-- non-vacuity for the raw query string: `a=1&b` has neither `#` nor a control byte. -/
+example : (∀ x ∈ ([97, 61, 49, 38, 98] : Bytes), x ≠ 35) ∧ Uri.hasCTL [97, 61, 49, 38, 98] = false := by decide
+
+/-! ### cookie round trip -/
+
+open Hertz.Uri in
+/-- `cookie_roundtrip` (partial: the empty cookie is excluded, see `cookie_roundtrip_fails_at`): for every response cookie
+that satisfies the driver's validity predicate (`wfCookie`: key free of `=` and `;` and not changed by trimming; value,
+domain and path free of `;` and not changed by trimming and unquoting; no `=` in the value of a key-less cookie; max-age in
+Go's `int` range) and has a key, a value or some attribute, parsing its serialisation returns the same cookie - key, value,
+max-age, domain, path, HttpOnly, secure, SameSite and Partitioned.  Expiry is Go's time formatting and stays outside. -/
+theorem cookie_roundtrip_partial (c : Cookie) (hwf : wfCookie c = true) (hne : cookieNonEmpty c = true) :
+    parseCookie (appendCookie c) = some c :=
+  parseCookie_appendCookie' c hwf hne
+
+open Hertz.Uri in
+/-- "has a key, a value or some attribute" is exactly "the serialisation is not the empty string". -/
+theorem cookie_nonEmpty_iff (c : Cookie) : appendCookie c = [] ↔ cookieNonEmpty c = false :=
+  appendCookie_eq_nil_iff c
+
+open Hertz.Uri in
+/-- The full statement is false: the empty cookie satisfies the validity predicate, is written as the empty string, and
+`ParseBytes("")` is an error (`errNoCookies`). -/
+theorem cookie_roundtrip_fails_at : wfCookie {} = true ∧ ¬ parseCookie (appendCookie {}) = some {} := by decide
+
+open Hertz.Uri in
+/-- non-vacuity: `id=a=b; max-age=3600; domain=x.io; path=/; HttpOnly; secure; SameSite=None; Partitioned` meets both
+hypotheses (and round-trips). -/
+example : wfCookie exCookie = true ∧ cookieNonEmpty exCookie = true ∧ parseCookie (appendCookie exCookie) = some exCookie :=
+  ⟨exCookie_wf.1, exCookie_wf.2, exCookie_roundtrip⟩
 
 end Hertz.Props.C17
